@@ -30,7 +30,10 @@ rc0, o0 = rundemo()
 res["demo_passes_unchanged"] = (rc0 == 0)
 rc, o = sh(["git", "apply", patch]); res["applies"] = (rc == 0)
 rc, o = sh(["sh", "-c", "go build ./... && go build -tags test ./... && go build -tags 'test verif' ./..."]); res["builds"] = (rc == 0)
-rc, o = sh(["go", "test", "-vet=off", "-count=1", "./glow/"], timeout=600); res["baseline_glow_passes"] = (rc == 0)
+for _try in range(3):   # TestRateLimiterParallel is timing-sensitive on a loaded machine
+    rc, o = sh(["go", "test", "-vet=off", "-count=1", "./glow/"], timeout=600)
+    if rc == 0: break
+res["baseline_glow_passes"] = (rc == 0)
 rc, o = sh(["go", "test", "-tags", "test", "-count=1", "./server/"], timeout=900); res["server_suite_passes"] = (rc == 0)
 if pkg == "client" or "client/" in open(patch).read():
     rc, o = sh(["go", "test", "-tags", "test", "-count=1", "./client/"], timeout=900); res["client_suite_passes"] = (rc == 0)
